@@ -3,6 +3,7 @@
 //! usage: verif-replay <property> <obligation-id> <seed>   -> one JSON line {"found":..,"input":..,"observed":..,"required":..}
 mod rng;
 mod lattice;
+mod resp;
 use std::panic;
 
 pub struct Found {
@@ -40,6 +41,7 @@ fn main() {
     let unit = oid.split('/').next().unwrap_or("").to_string();
     let res: Option<Found> = match unit.as_str() {
         "lattice" => lattice::search(&pid, &oid, seed),
+        "resp_codec" => resp::search(&pid, &oid, seed),
         _ => None,
     };
     match res {
